@@ -40,6 +40,12 @@ RULE = ("RTP/RTCP: one real RTCDtlsTransport + video receiver (VP8/H264/RTX) + a
         "datagrams (NACK, PLI, FIR, RR, SR, REMB, each repeated up to 150 times) per case, in the thorough tier also > 65536 retransmissions from an "
         "origin < 32768; feedback-history: a sender started with send() on a track of pre-encoded packets, origins shifted through the random16 / "
         "random32 / random_sequence_number seams or not at all (then 67 NACK floods = once around the 16-bit space), observed on the wire only; "
+        "set-up / tear-down: in a fifth of the rtp-dispatch cases the first n datagrams arrive while the SRTP sessions do not exist yet (state "
+        "connecting, as _do_handshake reads them; model: hasSrtp = false); dtls-setup: a real pair of RTCDtlsTransports over an in-memory link "
+        "stepped one datagram at a time, hostile datagrams (SRTP/SRTCP-looking, the peer's real first SRTP packets overtaking its last flight, DTLS "
+        "records truncated / over-long / wrong version / wrong epoch / application data / nonsense handshake fragments, STUN-looking, empty, 1 byte, "
+        "1500+ bytes, duplicated flights) before start(), before every handshake datagram in either direction, right after connected, while "
+        "connected, between stop() and the close_notify, after closed, and stop() in the middle of the handshake; "
         "distinct = distinct datagram list; nontrivial = at least one hostile datagram reached a receiver, a sender or a parser error")
 
 ASSUMPTIONS = [
@@ -61,6 +67,10 @@ TRUSTED_EXTRA = [
     "RTP part: `RTCRtpSender` state is installed through its private attributes exactly as `send()` / `_run_rtp` would set it (no encoder thread, no track)",
     "RTP part: per-datagram cost is measured as CPU time of the receiving thread with the garbage collector off, a datagram counts as slow only if it is above 50 ms in three runs; "
     "a datagram that uses 1 s of CPU is interrupted and reported as a hang",
+    "RTP part (dtls-setup): the DTLS handshake itself is OpenSSL's; a hostile datagram that is a plaintext DTLS record of the handshake epoch (DTLS version, epoch 0, "
+    "consistent length) during set-up is a forged protocol message and waives the `connected` clause; a protected-epoch record shorter than the AEAD overhead (24 bytes) "
+    "makes OpenSSL 4.0's record layer fail for good (`record layer failure`) and waives the DTLS-application-data and close_notify clauses only (finding C05-openssl-short-record, notes/C05b.md); "
+    "SRTP-range datagrams are generated up to 1500 bytes (the property's MTU bound; beyond it pylibsrtp raises ValueError: finding C05-srtp-over-mtu, notes/C05b.md)",
     "RTP part: counter origins are installed through the library's own random16 / random32 / random_sequence_number seams (attribute lookup by name only as a fall-back); "
     "a seam or attribute that no longer exists is not shifted",
 ]
@@ -267,6 +277,15 @@ class World:
             return _orig(stats)
         st.add = add
 
+    def set_srtp(self, on: bool):
+        """`on=False`: the transport as `_do_handshake` sees it - `start()` has been called, the SRTP sessions do not exist
+        yet, the state is `connecting`; `on=True`: as after `_setup_srtp()`."""
+        from aiortc.rtcdtlstransport import State
+        self.dtls._rx_srtp = _Srtp() if on else None
+        self.dtls._tx_srtp = _Srtp() if on else None
+        self.dtls._state = State.CONNECTED if on else State.CONNECTING
+        self.expect_state = "connected" if on else "connecting"
+
     # ---- observation ----------------------------------------------------------------------------
     def _snapshot(self):
         v = self.video
@@ -335,7 +354,7 @@ class World:
             ev.append("kf")
         if exc is not None:
             ev.append("EXC " + _exc_tag(exc))
-        if self.dtls.state != "connected":
+        if self.dtls.state != getattr(self, "expect_state", "connected"):
             ev.append("STATE " + self.dtls.state)
         return ev, ms
 
@@ -477,6 +496,8 @@ def expand(case):
 def model_line(case):
     ds = ",".join(hx(d) for _, d, _ in expand(case))
     rtx0 = case.get("rtx0", RTX0)
+    if case.get("nosrtp"):
+        return f"rtpdispatch runpre {case['nosrtp']} {rtx0} {ds}"
     return f"rtpdispatch run {ds}" if rtx0 == RTX0 else f"rtpdispatch runo {rtx0} {ds}"
 
 
@@ -490,7 +511,12 @@ def run_case(case):
     hung = False
     try:
         steps = expand(case)
+        nosrtp = case.get("nosrtp", 0)
+        if nosrtp:
+            w.set_srtp(False)
         for i, (kind, d, meta) in enumerate(steps):
+            if nosrtp and i == nosrtp:
+                w.set_srtp(True)
             ev, ms = w.feed(d)
             if ms > SLOW_MS:
                 # re-measure is impossible (state moved on): report, the oracle decides
@@ -894,6 +920,10 @@ def gen_case(rng, nmax=24):
     for _ in range(rng.randrange(1, nmax + 1)):
         d, f, _ = gen_hostile(rng, m)
         case["ops"].append([hx(d), bool(f)])
+    if rng.random() < 0.2:
+        # the receive path is entered before the SRTP sessions exist: `_do_handshake` reads datagrams through `_recv_next`
+        n = sum(1 for kind, _, _ in expand(case) if kind != "post")
+        case["nosrtp"] = rng.randrange(1, n + 1)
     return case
 
 
@@ -962,6 +992,17 @@ def systematic_cases():
     out.append({"pre": 1, "ops": [[hx(flood), False]], "post": 10})
     ops = [[hx(rtcp_remb(1, n, 3, 1000, [S_SSRC] * k)), False] for n in (0, 1, 2, 3, 255) for k in (0, 1, 2, 3)]
     out.append({"pre": 1, "ops": ops, "post": 10})
+    # 8. before the SRTP sessions exist (DTLS handshake in progress): the first x second byte grid, valid media, valid RTCP
+    ops = [["-", False]]
+    for a in FIRST:
+        ops.append([hx(bytes([a])), False])
+        for b in (0, 191, 192, 200, 208, 209):
+            ops.append([hx(bytes([a, b]) + b"\x00" * 10), False])
+    ops += [[hx(valid), False], [hx(with_ext), False], [hx(comp), False], [hx(rtcp_nack(1, S_SSRC, [(0, 3)])), False]]
+    for j in range(0, len(ops), 24):
+        chunk = ops[j:j + 24]
+        out.append({"pre": 0, "ops": chunk, "post": 10, "nosrtp": len(chunk)})
+    out.append({"pre": 2, "ops": ops[-4:], "post": 10, "nosrtp": 3})
     return out
 
 
@@ -1263,4 +1304,5 @@ class ManyStreams(Component):
 
 def components(tier):
     from harness import c05history as H
-    return [RtpWorld(), NackGen(), NackFixEquivalence(), ManyStreams(), H.FeedbackHistory()]
+    from harness import c05setup as U
+    return [RtpWorld(), NackGen(), NackFixEquivalence(), ManyStreams(), H.FeedbackHistory(), U.Setup()]
